@@ -332,3 +332,18 @@ def validate_traces(module, cfg, traces, ctx, label, env=None, timeout=1800, deq
         shutil.rmtree(d, True)
     ctx.coverage['traces_validated_against_impl'] += len(traces)
     return verdicts
+
+
+def parse_sim_file(path):
+    """Behaviour file written by `-simulate file=...`: list of (action name, vars dict)."""
+    with open(path) as f:
+        txt = f.read()
+    out = []
+    for m in re.finditer(r'\\\* <(\w+)[^\n]*>\nSTATE_\d+ == \n(.*?)(?=\n\n\\\* <|\n\n=+|\Z)', txt, re.S):
+        vars_ = {}
+        for part in re.split(r'(?m)^/\\ ', m.group(2)):
+            if '=' in part:
+                k, v = part.split('=', 1)
+                vars_[k.strip()] = parse_tla(v.strip())
+        out.append((m.group(1), vars_))
+    return out
